@@ -16,7 +16,8 @@
 //	cd /verif && GOFLAGS=-mod=mod GOPROXY=off go test ./notes/repro/C18_stop_hangs_accept_race/
 //
 // The test FAILS while the defect is present (HANG: Stop does not return within 3 s, or LEAK: Stop
-// returns while the accepted connection was reported open and never closed).
+// returns while the accepted connection was reported open and never closed, or LATE: its close
+// notification is delivered after Stop returned).
 package repro
 
 import (
@@ -96,8 +97,13 @@ func attempt(t *testing.T) string {
 	case <-done:
 		// Stop returned: the accepted connection must have been closed and notified.
 		if o, c := atomic.LoadInt32(&opens), atomic.LoadInt32(&closes); o != c {
-			return fmt.Sprintf("LEAK: Stop returned with %d open and %d close notifications: the accepted connection was registered "+
-				"after wgConn.Wait() had returned and is left open, unnotified, with no poller", o, c)
+			time.Sleep(300 * time.Millisecond)
+			if c2 := atomic.LoadInt32(&closes); c2 == o {
+				return fmt.Sprintf("LATE: Stop returned with %d open and %d close notifications; the close notification arrived only after "+
+					"Stop had returned (the registration ran into the pollers' already closed epoll fd, EBADF, and nbio closed the connection)", o, c)
+			}
+			return fmt.Sprintf("LEAK: Stop returned with %d open and %d close notifications, unchanged 300 ms later: the accepted connection was "+
+				"registered after wgConn.Wait() had returned and is left open, unnotified, with no poller", o, c)
 		}
 		return "ok" // registered before the scan, or epoll_ctl on the already closed epoll fd failed (EBADF) and nbio closed it
 	case <-time.After(3 * time.Second):
